@@ -475,6 +475,23 @@ def seq_drain(ex, st, callee, args):
     return Fork(alts)
 
 
+@h(r'^<(?:\[.*\]|%s<.*>) as (?:std::ops::)?Index<(?:std::ops::)?Range(?:From|To)?<usize>>>::index$' % _SEQ)
+def seq_index_range(ex, st, callee, args):
+    """&s[a..], &s[..b], &s[a..b] on a sequence of concrete length: a read-only sub-slice (forks on symbolic bounds; std's range panic is an obligation)"""
+    l = as_list(ex, args[0]); rng = args[1]; n = len(l.items)
+    if isinstance(rng, list) and len(rng) == 2: lo, hi = rng[0], rng[1]
+    elif isinstance(rng, list) and len(rng) == 1 and 'RangeFrom<' in callee: lo, hi = rng[0], BitVecVal(n, 64)
+    elif isinstance(rng, list) and len(rng) == 1 and 'RangeTo<' in callee: lo, hi = BitVecVal(0, 64), rng[0]
+    else: raise Unsupported('index range %r' % (rng,))
+    okc = And(ULE(lo, hi), ULE(hi, n))
+    st.path.oblige('no panic: slice range within the sequence', okc, callee); st.path.assume(okc)
+    alts = []
+    for a_ in range(n + 1):
+        for b_ in range(a_, n + 1):
+            alts.append((And(lo == a_, hi == b_), (lambda a_, b_: lambda ex, st, a: box(ListModel(as_list(ex, a[0]).items[a_:b_], as_list(ex, a[0]).kind)))(a_, b_)))
+    return Fork(alts)
+
+
 @h(r'^%s::<.*>::truncate$' % _SEQ)
 def seq_truncate(ex, st, callee, args):
     l = as_list(ex, args[0]); n = len(l.items); k = args[1]
